@@ -73,7 +73,8 @@ def law_cases(ctx, n):
             spread = rng.choice([0.0, scale, 10 * scale, mag / 10])
             values.append([centre + rng.uniform(-spread, spread) for _ in range(size)])
         shift = rng.choice([0.5, -3.0, mag / 7, -mag / 3])
-        unit = scale + 16 * ULP32 * (mag + abs(shift))
+        # differences of two aggregates are compared in units of 16 float32 ulps of the magnitudes involved
+        unit = 16 * ULP32 * (mag + abs(shift) + 4 * scale)
         coarse = 8 * ULP32 * mag / scale > 0.125      # bounds below float32 resolution: only finiteness is decided
         tol = F(64) if coarse else F(1, 128) + F(8 * ULP32 * mag / scale).limit_denominator(1 << 10)
         cases.append({"fn": "lse-laws", "kind": f"laws, {layout}", "scale": scale, "magnitude": mag, "layout": layout, "values": values,
@@ -96,7 +97,7 @@ def run(ctx: Ctx) -> Result:
         "TLA+ has no exp/log: equality with s log sum exp(v/s) is decided only on the exact family (closed form s ln2 (M+k), k "
         "computed by TLC from the integers); elsewhere the listed laws pin the function: finiteness, 0 <= (emax-max)/s <= ln n "
         "(rational upper bounds of ln n), shift, axes = segments",
-        "observations are normalised by the driver ((emax-max)/(s ln2), differences / (s + 16 ulp(magnitude))); the absolute "
+        "observations are normalised by the driver ((emax-max)/(s ln2); differences in units of 16 float32 ulps of magnitude + shift + 4 s, accepted up to 1/2 unit); the absolute "
         "tolerance 2^-8 + 8 ulp32(magnitude)/s is computed from the inputs",
     ]
     return res
